@@ -141,6 +141,25 @@ def run(check, ctx):
                  ("Crypto.Cipher.ChaCha20", "ChaCha20Cipher")):
         compare(check, repo, m, c, CLASSIC_METHODS, {}, a5(), "C10")
     check.floor("T", 150)
+    # CCM: the declared lengths bound the *cumulative* input over all calls (assoc_len over update(), msg_len over encrypt/decrypt)
+    CCM = "Crypto.Cipher._mode_ccm"
+    for done in (0, 30, 50):
+        me = dict(_msg_len=100, _assoc_len=50, _cumul_assoc_len=done, _cumul_msg_len=0,
+                  _next=["update", "encrypt", "decrypt", "digest", "verify"], nonce=ABytes(11), _mac_status=2,
+                  _cache=b"", _mac_len=16, block_size=16, _mac_tag=None)
+        run_row(check, repo, Row("ccm.assoc.over.%d" % done, "C10", CCM, "CcmMode.update", I(0, 50 - done),
+                                 LEN("assoc_data"), self_obj=OBJ((CCM, "CcmMode"), **me),
+                                 extra_points=(0, 1, 19, 20, 21, 49, 50, 51),
+                                 cite="the cumulative associated data over all update() calls never exceeds the declared assoc_len"))
+    for meth, par in (("encrypt", "plaintext"), ("decrypt", "ciphertext")):
+        for done in (0, 60, 100):
+            me = dict(_msg_len=100, _assoc_len=0, _cumul_assoc_len=0, _cumul_msg_len=done,
+                      _next=[meth, "digest", "verify"], nonce=ABytes(11), _mac_status=2,
+                      _cache=b"", _mac_len=16, block_size=16, _mac_tag=None)
+            run_row(check, repo, Row("ccm.msg.over.%s.%d" % (meth, done), "C10", CCM, "CcmMode." + meth, I(0, 100 - done),
+                                     LEN(par), base={"output": None}, self_obj=OBJ((CCM, "CcmMode"), **me),
+                                     extra_points=(0, 1, 39, 40, 41, 100, 101),
+                                     cite="the cumulative message length over all calls never exceeds the declared msg_len"))
     c10_extra.run(check, ctx)
     # copy() is part of the life cycle: a clone taken while squeezing continues the same output
     from .. import crules
@@ -148,6 +167,9 @@ def run(check, ctx):
     # OCB: an empty chunk is not the final call (every permitted sequence yields the one-shot result)
     from . import C09 as _c09
     _c09.ocb_transcrypt_seg(check, ctx.repo, rule="T-seg")
+    # KangarooTwelve's own (Python) life cycle, single-chunk and tree branches
+    from .c09_extra import k12_tree_rows
+    k12_tree_rows(check, ctx.repo, rule="T-seg", lifecycle_rule="T")
     # the native sponge's life cycle: absorb after squeeze refused, digest does not consume, copies continue alike
     from . import c_keccak
     c_keccak.keccak_tables(check, ctx, rule="T-c", groups=("sponge", "copy", "init"))
